@@ -25,6 +25,7 @@ def plan(tier, seed):
     for kind in ("soup", "hostile_moderate", "hostile_extreme", "validator", "convert_soup"):
         shards += [{"kind": kind, "seed": seed, "shard": i, "n": 300} for i in range(k)]
     shards += [{"kind": "faults", "seed": seed, "shard": i, "n": 10} for i in range(24 if tier == "quick" else 400)]
+    shards += [{"kind": "mcp_soup", "seed": seed, "shard": i, "n": 120} for i in range(4 if tier == "quick" else 60)]
     return shards
 
 
@@ -280,7 +281,7 @@ def run_faults(desc):
     cnt, viols, hashes, samples = Counter(), [], set(), []
     for _ in range(desc["n"]):
         fault = rng.choice(["missing_input", "directory_input", "non_utf8_input", "unwritable_output", "preexisting_output_on_failure",
-                            "preexisting_default_pdf", "bad_ledger", "soup_file", "ok_run", "overflow_ledger", "stdout_dev_full",
+                            "preexisting_default_pdf", "preexisting_default_pdf_multi", "bad_ledger", "soup_file", "ok_run", "overflow_ledger", "stdout_dev_full",
                             "convert_bad_json", "convert_missing_awards", "bad_fx_folder", "year_out_of_table", "parse_soup"])
         good, _f = gen_ledger(rng, Opts(capital=False, splits=True, n_sec=(1, 2), steps=(2, 6)))
         fmt = rng.choice(["plain", "json", "pdf"])
@@ -312,6 +313,12 @@ def run_faults(desc):
                 sb.write("good.pdf", "PRECIOUS")
                 args = ["report", "good.cgt", "--format", "pdf"]
                 out_name = "good.pdf"
+            elif fault == "preexisting_default_pdf_multi":
+                # several inputs: the default path is ./report.pdf
+                sb.write("report.pdf", "PRECIOUS")
+                sb.write("second.cgt", "2020-01-06 BUY ZZ 1 @ 1\n")
+                args = ["report", "good.cgt", "second.cgt", "--format", "pdf"]
+                out_name = "report.pdf"
             elif fault == "bad_ledger":
                 sb.write("bad.cgt", render_dsl(good) + "2031-01-01 SELL NOPE 5 @ 1\n")
                 args = ["report", "bad.cgt", "--format", fmt] + (["--output", "o.bin"] if fmt == "pdf" or rng.random() < 0.5 else [])
@@ -382,6 +389,12 @@ def run_faults(desc):
             if changed:
                 viols.append({"clause": "files-touched-on-failure", "signature": "files-touched-on-failure:" + fault,
                               "detail": f"{changed}", "case": case})
+        if fault == "preexisting_default_pdf_multi":
+            if after.get("report.pdf") != before.get("report.pdf"):
+                viols.append({"clause": "default-pdf-path-replaced-existing-file", "signature": "default-pdf-path-replaced-existing-file:multi-input",
+                              "detail": f"report.pdf changed (exit {r['exit']})", "case": case})
+            elif failed:
+                cnt["default_pdf_overwrite_refused"] += 1
         if fault == "preexisting_default_pdf":
             if after.get("good.pdf") != before.get("good.pdf"):
                 viols.append({"clause": "default-pdf-path-replaced-existing-file", "signature": "default-pdf-path-replaced-existing-file",
@@ -394,8 +407,57 @@ def run_faults(desc):
     return {"evaluations": cnt["process_runs"], "nontrivial_hashes": hashes, "counters": cnt, "violations": viols[:30], "samples": samples}
 
 
+def run_mcp_soup(desc):
+    """MCP tools on hostile text: every request must be answered exactly once (a result or an error), the server
+    must stay up until stdin closes and exit 0."""
+    from ..mcpdrv import Session, call, check_history
+    from .c20 import json_soup, small_ledger
+    from ..gen.ledger import render_dsl as rdsl
+    rng = rng_for(PROP, desc["seed"], "mcp_soup", desc["shard"])
+    cnt, viols, hashes = Counter(), [], set()
+    pool = []
+    for _ in range(3):
+        t_ = small_ledger(rng)
+        pool.append({"txs": t_, "fx": False, "dsl": rdsl(t_), "json": ""})
+    ctx = {"pool": pool}
+    sess = Session()
+    reqs = []
+    for i in range(desc["n"]):
+        if rng.random() < 0.6:
+            text, how = json_soup(rng, ctx)
+        else:
+            text, how = soup(rng), "dsl-soup"
+        tool = rng.choice(["parse_transactions", "calculate_report", "convert_to_dsl", "explain_matching"])
+        args = {"transactions": text}
+        if tool == "explain_matching":
+            args.update(disposal_date=rng.choice(["2024-01-01", "x", ""]), ticker=rng.choice(["X", "", "é"]))
+        if tool == "calculate_report" and rng.random() < 0.3:
+            args["year"] = rng.choice([2020, -1, 99999, 1899])
+        reqs.append((call(i + 1, tool, args), how))
+    for j in range(0, len(reqs), 16):
+        sess.send([r for r, _ in reqs[j:j + 16]])
+    sess.wait_for([r["id"] for r, _ in reqs], 60)
+    end = sess.finish()
+    hv, stats, resp = check_history(sess, end)
+    cnt["mcp_soup_requests"] += len(reqs)
+    cnt["mcp_soup_answered"] += len(resp)
+    for r, how in reqs:
+        cnt["mcp_soup_" + how] += 1
+        hashes.add(sha(r)[:16])
+    for name, detail in hv:
+        how = ""
+        m = re.match(r"(\d+) ", detail)
+        if m:
+            how = ":" + next((h for r, h in reqs if r["id"] == int(m.group(1))), "")
+        viols.append({"clause": "mcp-" + name, "signature": "mcp-" + name + how, "detail": detail,
+                      "case": {"op": "mcp-soup", "request": next((r for r, h in reqs if m and r["id"] == int(m.group(1))), None)}})
+    return {"evaluations": len(reqs), "nontrivial_hashes": hashes, "counters": cnt, "violations": viols[:20], "samples": []}
+
+
 def run_shard(desc):
     k = desc["kind"]
+    if k == "mcp_soup":
+        return run_mcp_soup(desc)
     if k == "soup":
         return run_soup(desc)
     if k == "hostile_moderate":
@@ -420,7 +482,8 @@ def replay(case):
 THRESHOLDS = {"library_calls": 8000, "hostile_moderate_ledgers": 2000, "hostile_extreme_ledgers": 2000, "validator_cases": 2000,
               "validator_valid_inputs": 100, "validator_reason_quantity<=0": 200, "validator_reason_ratio<=0": 100,
               "validator_reason_fee<0": 100, "validator_reason_price/total<0": 200, "process_runs": 100,
-              "failing_runs_observed": 50, "default_pdf_overwrite_refused": 3}
+              "failing_runs_observed": 50, "default_pdf_overwrite_refused": 3,
+              "mcp_soup_answered": 300}
 RULE = ("byte/token soup and mutated valid files into parse/report/convert; structurally valid hostile ledgers in a "
         "moderate regime (|x| in {0} u [1e-8, 1e9]) and an extreme regime (up to 7.9e28, down to 1e-28; calendar ends; "
         "currencies outside the table; absurd year filters); validator verdict vs its stated predicate on structs built "
